@@ -44,6 +44,7 @@ Record klaws {C V : Type} (o : kops C V) (A : V -> V) (nonneg : C -> Prop) : Pro
   k_nrm_zero : forall v, o.(vnrm) v = o.(c0) -> forall u, o.(vdot) u v = o.(c0);   (* definiteness *)
   k_nrm_nonneg : forall v, nonneg (o.(vnrm) v);
   k_nonneg_mul : forall a b, nonneg a -> nonneg b -> nonneg (o.(cmul) a b);
+  k_hyp_nonneg : forall a b, nonneg (o.(chyp) a b);
   k_gt_nz : forall x y, o.(cgtb) x y = true -> nonneg y -> x <> o.(c0) }.    (* x.real > y.real >= 0 -> x <> 0 *)
 
 Section Proofs.
@@ -264,23 +265,25 @@ Proof. intros Hn. assert (be_real : conj (nrm v) = nrm v) by apply (k_nrm_real _
 (* ---------- the loop ---------- *)
 Variable tol : C.
 Hypothesis tol_nonneg : nonneg tol.
+Variable rfix : bool.      (* pinned (false) or repaired (true) stopping test: everything below holds for both *)
 
-Lemma lloop_ge al fuel m i (ss : list (@lst C V)) : (i <= fst (lloop o A al fuel tol m i ss))%nat.
+Lemma lloop_ge al fuel m i (ss : list (@lst C V)) : (i <= fst (lloop o A al rfix fuel tol m i ss))%nat.
 Proof. revert i ss; induction fuel as [|f IH]; intros i ss; simpl; [lia|].
-  destruct (lcond o tol m i ss); simpl; [|lia]. specialize (IH (S i) (map (lbody o A al i) ss)). lia. Qed.
-Lemma lloop_le al fuel m i (ss : list (@lst C V)) : (i <= m + 1 -> fst (lloop o A al fuel tol m i ss) <= m + 1)%nat.
+  destruct (lcond o rfix tol m i ss); simpl; [|lia]. specialize (IH (S i) (map (lbody o A al i) ss)). lia. Qed.
+Lemma lloop_le al fuel m i (ss : list (@lst C V)) : (i <= m + 1 -> fst (lloop o A al rfix fuel tol m i ss) <= m + 1)%nat.
 Proof. revert i ss; induction fuel as [|f IH]; intros i ss Hi; simpl; [lia|].
-  destruct (lcond o tol m i ss) eqn:E; simpl; [|lia]. apply IH.
+  destruct (lcond o rfix tol m i ss) eqn:E; simpl; [|lia]. apply IH.
   unfold lcond in E. apply andb_prop in E as [E _]. apply Nat.leb_le in E. lia. Qed.
 
 Lemma cond_nz m i s : (1 <= i)%nat -> Inv m i s -> (i = 1%nat -> nrm (col o (lV s) 1) <> 0) ->
-  lcond o tol m i [s] = true -> (i <= m)%nat /\ nrm (col o (lV s) i) <> 0.
+  lcond o rfix tol m i [s] = true -> (i <= m)%nat /\ nrm (col o (lV s) i) <> 0.
 Proof. intros Hi I H1 Hc. unfold lcond in Hc. apply andb_prop in Hc as [Hm Hl]. apply Nat.leb_le in Hm. split; [exact Hm|].
   destruct (Nat.eq_dec i 1) as [->|Hne]; [auto|].
   cbn [existsb] in Hl. rewrite orb_false_r in Hl. unfold is_large in Hl.
   destruct (Nat.leb_spec i 1); [lia|]. rewrite orb_false_r in Hl.
   rewrite <- (I_sub _ _ _ I) by lia.
   apply (k_gt_nz _ _ _ L _ _ Hl). apply (k_nonneg_mul _ _ _ L); [exact tol_nonneg|].
+  unfold lref. destruct rfix; [apply (k_hyp_nonneg _ _ _ L)|].
   destruct (I_subn _ _ _ I 1%nat ltac:(lia)) as (w & ->). apply (k_nrm_nonneg _ _ _ L). Qed.
 
 Section Run.
@@ -298,9 +301,9 @@ Proof. intros Hi I F H1 u. rewrite lbody_false. cbv zeta. cbn [lV]. unfold col.
   - rewrite nth_upd_neq by lia. apply F. Qed.
 
 Lemma lloop_inv m fuel : forall i s, (1 <= i)%nat -> Inv m i s -> First s -> (i = 1%nat -> nrm (col o (lV s) 1) = 1) ->
-  exists s', snd (lloop o A false fuel tol m i [s]) = [s'] /\ Inv m (fst (lloop o A false fuel tol m i [s])) s' /\ First s'.
+  exists s', snd (lloop o A false rfix fuel tol m i [s]) = [s'] /\ Inv m (fst (lloop o A false rfix fuel tol m i [s])) s' /\ First s'.
 Proof. induction fuel as [|f IH]; intros i s Hi I F H1; simpl; [exists s; auto|].
-  destruct (lcond o tol m i [s]) eqn:E; [|exists s; auto].
+  destruct (lcond o rfix tol m i [s]) eqn:E; [|exists s; auto].
   assert (H1' : i = 1%nat -> nrm (col o (lV s) 1) <> 0) by (intros e; rewrite (H1 e); exact one_neq_zero).
   destruct (cond_nz m i s Hi I H1' E) as [Hm Hn].
   cbn [map]. apply IH; [lia|apply step_inv; auto|apply (first_step m); auto|lia]. Qed.
@@ -308,7 +311,7 @@ Proof. induction fuel as [|f IH]; intros i s Hi I F H1; simpl; [exists s; auto|]
 Definition Qc (r : @lres C V) (a : nat) : V := nth a (rQ r) o.(vzero).
 
 Theorem lanczos1_spec n max_iters : (1 <= n)%nat -> (1 <= max_iters)%nat ->
-  let r := lanczos1 o A false n v max_iters tol in
+  let r := lanczos1 o A false rfix n v max_iters tol in
   let k := length (rQ r) in
   exists w : V,
     (1 <= k <= Nat.min max_iters n)%nat /\ length (rdiag r) = k /\ length (roff r) = (k - 1)%nat /\
@@ -330,14 +333,14 @@ Proof.
   assert (N0 : 1%nat = 1%nat -> nrm (col o (lV (linit o m v)) 1) = 1).
   { intros _. rewrite init_col1 by exact Hm. apply (k_nrm_one _ _ _ L). apply unit_div. exact v_nz. }
   (* the first iteration always runs *)
-  assert (Hfirst : (2 <= fst (lloop o A false m tol m 1 [linit o m v]))%nat).
+  assert (Hfirst : (2 <= fst (lloop o A false rfix m tol m 1 [linit o m v]))%nat).
   { destruct m as [|m']; [lia|]. cbn [lloop].
-    assert (E : lcond o tol (S m') 1 [linit o (S m') v] = true).
+    assert (E : lcond o rfix tol (S m') 1 [linit o (S m') v] = true).
     { unfold lcond. cbn [existsb]. unfold is_large. cbn [Nat.leb]. rewrite !orb_true_r. reflexivity. }
     rewrite E. apply lloop_ge. }
   assert (Hle := lloop_le false m m 1 [linit o m v] ltac:(lia)).
   destruct (lloop_inv m m 1 (linit o m v) ltac:(lia) I0 F0 N0) as (s' & Es & I & F).
-  set (i' := fst (lloop o A false m tol m 1 [linit o m v])) in *.
+  set (i' := fst (lloop o A false rfix m tol m 1 [linit o m v])) in *.
   rewrite Es. cbn [map hd]. set (k := (i' - 1)%nat).
   assert (Hk : (1 <= k <= m)%nat) by (unfold k; lia).
   unfold ltrim. cbn [snd fst hd rQ roff rdiag].
